@@ -17,7 +17,9 @@
    `why` names the first rule the last step broke ("" if none).              *)
 EXTENDS ContractRules, TLC
 
-CONSTANTS Plan,              \* Plan[d]: classes of calls allowed as d-th call ("new", "rev", "ren")
+CONSTANTS Plan,              \* Plan[d]: classes of calls allowed as d-th call ("new", "rev", "ren", "size")
+                             \* "size": appends of 1..3 sectors and frees of 1..3 sectors (capacity bookkeeping:
+                             \* sectors are freed and fewer / as many / more are appended again)
           Allows, Colls,     \* <<a, b>> stands for a * SectorSize + b hastings
           Cps, Fees,         \* hastings
           Units              \* per-unit prices (storage, ingress, free sector), hastings
@@ -143,12 +145,16 @@ New == /\ depth = 0
 Step(c2, w) == fc' = c2 /\ why' = w /\ depth' = depth + 1
 Live(class) == depth >= 1 /\ depth < MaxDepth /\ why = "" /\ class \in Plan[depth + 1]
 
-AppendS == /\ Live("rev")
-          /\ \E p \in AppendPrices, n \in {1, 2} :
+AppendS(class, Ns) ==
+          /\ Live(class)
+          /\ \E p \in AppendPrices, n \in Ns :
                LET m == M_Revise("append", fc, p, n, Zero) IN Step(m.fc, FirstFail(RevChecks("append", fc, m, p, n, Zero)))
-FreeS == /\ Live("rev") /\ fc.fs # Zero
-        /\ \E fsp \in Units :
-             LET p == PT(0, 0, 0, fsp, 0) m == M_Revise("free", fc, p, 1, Zero) IN Step(m.fc, FirstFail(RevChecks("free", fc, m, p, 1, Zero)))
+FreeS(class, Ks) ==
+        /\ Live(class)
+        /\ \E fsp \in Units, k \in Ks :
+             LET p == PT(0, 0, 0, fsp, 0) m == M_Revise("free", fc, p, k, Zero) IN
+             /\ Le(Mul(SS, FromInt(k)), fc.fs)          \* request validation: only stored sectors can be freed
+             /\ Step(m.fc, FirstFail(RevChecks("free", fc, m, p, k, Zero)))
 \* fund: one hasting, half, everything, one too many
 FundS == /\ Live("rev")
         /\ \E amount \in {One, DivSmall(fc.ro, 2), fc.ro, Add(fc.ro, One)} :
@@ -170,17 +176,30 @@ Refresh(kind) ==
        /\ RequestOK(p, allow, coll)
        /\ Step(m.r.nc, FirstFail(RenewalChecks(kind, fc, m, k, p, allow, coll, fc.ph, FromInt(fee))))
 
-Next == New \/ AppendS \/ FreeS \/ FundS \/ Renew \/ Refresh("refreshP") \/ Refresh("refreshF")
+Next == New \/ AppendS("rev", {1, 2}) \/ FreeS("rev", {1}) \/ AppendS("size", {1, 2, 3}) \/ FreeS("size", {1, 2, 3}) \/ FundS \/ Renew \/ Refresh("refreshP") \/ Refresh("refreshF")
 Spec == Init /\ [][Next]_vars
 
 \* the invariant: no step ever breaks a rule
 Sound == why = ""
 \* lineage invariants the constructors rely on (never checked by consensus)
 Lineage == depth >= 1 => /\ Le(fc.mh, fc.tc) /\ Le(fc.tc, fc.ho) /\ Le(fc.fs, fc.cap)
+\* a revision never lowers the capacity and keeps the filesize within it, whatever was freed before
+\* (validateRevision: "decreases capacity", "filesize exceeds capacity"); also part of RevChecks via
+\* ConsensusValidV2Revision and ExpectedSize, stated here on the lineage itself
+Revises == AppendS("rev", {1, 2}) \/ FreeS("rev", {1}) \/ AppendS("size", {1, 2, 3}) \/ FreeS("size", {1, 2, 3}) \/ FundS
+CapacityMonotone == [][Revises => (Le(fc.cap, fc'.cap) /\ Le(fc'.fs, fc'.cap))]_vars
+\* reachability witness (ContractsDesignSizesReach.cfg; the harness expects TLC to REFUTE NeverPartialRefill):
+\* the size plan contains a successful append into a contract with free capacity that leaves free capacity,
+\* i.e. sectors were freed and fewer were appended again
+PartialRefillStep == /\ Lt(fc.fs, fc.cap) /\ Lt(fc.fs, fc'.fs) /\ Lt(fc'.fs, fc'.cap) /\ fc'.cap = fc.cap /\ why' = ""
+NeverPartialRefill == [][~PartialRefillStep]_vars
 
 \* ---- constant values for the configurations (cfg files cannot spell tuples) -----------------
 PlanQuick    == <<{"new"}, {"rev", "ren"}>>
 PlanThorough == <<{"new"}, {"rev", "ren"}, {"rev", "ren"}, {"ren"}>>
+PlanSizes    == <<{"new"}, {"size"}, {"size"}, {"size"}, {"size", "ren"}>>
+OneAllow     == {<<4000, 7>>}
+OneColl      == {<<300, 3>>}
 AllowValues  == {<<0, 1>>, <<400, 7>>}
 CollValues   == {<<0, 0>>, <<0, 1>>, <<300, 3>>}
 =============================================================================
